@@ -7,6 +7,7 @@ use super::*;
 fn model_enc(_s: &Blowfish, l: u32, r: u32) -> (u32, u32) { (r.rotate_left(5) ^ 0x9E37_79B9, l.wrapping_add(0x1234_5678)) }
 fn model_dec(_s: &Blowfish, l: u32, r: u32) -> (u32, u32) { (r.wrapping_sub(0x1234_5678), (l ^ 0x9E37_79B9).rotate_right(5)) }
 
+//@kani_only_begin
 fn framing<const N: usize, const P: usize>() {
     let fish = Blowfish { p: [0; 18], s: [[0; 256]; 4] };
     let m: [u8; N] = kani::any();
@@ -105,6 +106,7 @@ fn k_blowfish_pairs_pi_tables() {
     kani::cover!(true, "reachable");
 }
 
+//@kani_only_end
 /// textbook Blowfish (Schneier 1993) over the crate's pi tables (whose 1042 words the Verus unit checks against the digits of pi): key schedule over key[0..8] and the 16-round network, written independently of the code under contract
 struct NbfRef { p: [u32; 18], s: [[u32; 256]; 4] }
 impl NbfRef {
